@@ -209,8 +209,20 @@ func (x *Exec) solveAll(obls []*Oblig, cfg solveCfg) {
 	// with three times the budget once the parallel phase is over. A proof found then is a proof.
 	var late []*Oblig
 	for _, o := range obls {
-		if o.Kind == "goal" && o.Status == "failed" && strings.Contains(o.Output, "timeout") && !strings.Contains(o.Output, "unknown") && !strings.Contains(o.Output, "disagreement") {
-			late = append(late, o)
+		if o.Kind == "goal" && o.Status == "failed" && !strings.Contains(o.Output, "disagreement") {
+			z3timeouts, z3other := 0, 0
+			for _, part := range strings.Split(o.Output, " | ") {
+				if strings.HasPrefix(part, "z3") {
+					if strings.Contains(part, "timeout") {
+						z3timeouts++
+					} else {
+						z3other++
+					}
+				}
+			}
+			if z3timeouts > 0 && z3other == 0 {
+				late = append(late, o)
+			}
 		}
 	}
 	if len(late) > 0 && len(late) <= 12 && !cfg.all {
